@@ -60,17 +60,17 @@ pub fn run_check(id: &str, tier: Tier) -> i32 {
     let level = "exploration";
     match id {
         "C10" => {
-            parts.push(run_engine(&EncEngine { big: false }, &ctx, scale(tier, 30_000, 1_500_000)));
+            parts.push(run_engine(&EncEngine { big: false }, &ctx, scale(tier, 120_000, 3_000_000)));
             if parts.iter().all(|p| p.failure.is_none()) {
-                parts.push(run_engine(&EncEngine { big: true }, &ctx, scale(tier, 3_000, 100_000)));
+                parts.push(run_engine(&EncEngine { big: true }, &ctx, scale(tier, 6_000, 200_000)));
             }
             assumptions.push("reference decoder (refmodel::hpack) implements RFC 7541 correctly; validated against the third-party fixture stories by `h2v selftest`".into());
             assumptions.push("table-size changes are applied to encoder and decoders at the same history position (what the SETTINGS ACK rule guarantees on a connection)".into());
         }
         "C11" => {
-            parts.push(run_engine(&DecEngine, &ctx, scale(tier, 60_000, 5_000_000)));
+            parts.push(run_engine(&DecEngine, &ctx, scale(tier, 500_000, 10_000_000)));
             if parts.iter().all(|p| p.failure.is_none()) {
-                parts.push(run_engine(&SplitEngine, &ctx, scale(tier, 20_000, 1_000_000)));
+                parts.push(run_engine(&SplitEngine, &ctx, scale(tier, 120_000, 3_000_000)));
             }
             if parts.iter().all(|p| p.failure.is_none()) {
                 let full = tier == Tier::Thorough;
@@ -118,7 +118,12 @@ pub fn replay(path: &str) -> i32 {
     let case = &v["case"];
     let out = match engine {
         "hpack-dec" => runner::replay_case(&DecEngine, case),
-        "hpack-split" => runner::replay_case(&SplitEngine, case),
+        "hpack-split" => {
+            if let Ok(c) = serde_json::from_value::<eng_hpack::SplitCase>(case.clone()) {
+                eng_hpack::debug_split(&c);
+            }
+            runner::replay_case(&SplitEngine, case)
+        }
         "hpack-enc" => runner::replay_case(&EncEngine { big: false }, case),
         "hpack-enc-big" => runner::replay_case(&EncEngine { big: true }, case),
         "codec-write" => runner::replay_case(&WriteEngine, case),
